@@ -10,11 +10,18 @@ from props import c04
 REQUIRED_THEOREMS = [
     'C01_pick_eq', 'C01_call_eq_spec_partial', 'C01_call_eq_spec', 'C01_ties_counterexample',
     'C01_constructed_evaluable', 'C01_spec_is_sum_over_measurements', 'C01_pointwise_sum',
-    'C01_pointwise_length', 'C01_slices_partition', 'C01_posterior']
+    'C01_pointwise_length', 'C01_slices_partition', 'C01_posterior',
+    'C01_reduced_split', 'C01_reduced_all_error_fixed', 'C01_reduced_error_model_sees_own',
+    'C01_reduced_call_eq_full', 'C01_reduced_call_eq_spec', 'C01_reduced_wrong_length']
 RULE = ('1-4 outputs, one of the four error models each, per-output grids drawn from a shared pool of '
         'dyadic times so that identical / disjoint / nested / overlapping / tied / length-1 arrangements '
         'occur; toy mechanistic model with closed-form outputs; non-trivial = >=2 outputs with different '
-        'grids, or a tied time; distinct = distinct (arrangement class, error models, grid sizes)')
+        'grids, or a tied time; distinct = distinct (arrangement class, error models, grid sizes). '
+        'About every third draw additionally builds a likelihood with FIXED parameters: error models wrapped / '
+        'partly fixed before construction, then a history of 1-3 fix_parameters requests (all error-model '
+        'parameters = known assay error, all mechanistic ones, one output\'s error model, random subsets, releases, '
+        're-fixes); after every request value, pointwise values, counts and posterior are compared with the sum '
+        'over all measurements at the full vector in which the fixed entries take their fixed values')
 ASSUMPTIONS = ['the mechanistic model is an arbitrary function of (output, time): chi solves it once on the '
                'union grid; the toy model of harness/toy.py stands for it',
                'times are non-negative doubles and travel as their bit patterns (order-isomorphic)']
@@ -256,6 +263,182 @@ def run_case(ctx, chi, kinds, grids, obs, n_mech, psi, sig, seed, tag='gen'):
         ctx.spec('C01.posterior', core.close(pv, float(prior(params)) + v), inp, {'post': pv})
 
 
+# ---------------------------------------------------------------------------------------------------------------
+# likelihoods with fixed parameters (known assay error, known clearance, ...): the object is still the sum over
+# all measurements, evaluated at the full vector (psi, sigma) in which the fixed entries take their fixed values
+# and the free entries consume the argument in order
+
+def widths_of(kinds):
+    return [2 if k == 'CM' else 1 for k in kinds]
+
+
+def gen_plan(rng, n_mech, kinds):
+    """(pre, plan): `pre[o]` is None or the list of [position inside error model o, value] fixed on a
+    chi.ReducedErrorModel BEFORE it is handed to the constructor (an empty list = wrapped, nothing fixed);
+    `plan` is a history of fix_parameters requests, each a list of [position in the documented parameter
+    order, value or None (= release)]"""
+    widths = widths_of(kinds)
+    n = n_mech + sum(widths)
+    first = [n_mech + sum(widths[:o]) for o in range(len(kinds))]
+
+    def val(j):
+        if j >= n_mech and rng.random() < 0.03:
+            return float(rng.choice([0.0, -0.5]))
+        return float(rng.uniform(0.5, 1.5)) if j < n_mech else float(rng.uniform(0.2, 1.5))
+
+    fixed = set()
+    pre = [None] * len(kinds)
+    if rng.random() < 0.3:
+        for o in range(len(kinds)):
+            if rng.random() < 0.6:
+                loc = [j for j in range(widths[o]) if rng.random() < 0.7]
+                pre[o] = [[j, val(first[o] + j)] for j in loc]
+                fixed |= set(first[o] + j for j in loc)
+    plan = []
+    for _ in range(int(rng.integers(1, 4))):
+        mode = rng.random()
+        if mode < 0.3:
+            idx = list(range(n_mech, n))                                   # the measurement error is known
+        elif mode < 0.4:
+            idx = list(range(n_mech))                                      # the mechanistic model is known
+        elif mode < 0.5:
+            o = int(rng.integers(len(kinds)))
+            idx = list(range(first[o], first[o] + widths[o]))              # one output's error model
+        elif mode < 0.7 and fixed:
+            rel = sorted(fixed)
+            k = int(rng.integers(1, len(rel) + 1))
+            step = [[int(j), None] for j in rng.choice(rel, size=k, replace=False)]
+            if rng.random() < 0.3:                                         # release and fix in one request
+                j = int(rng.integers(n))
+                if j not in [a for a, _ in step]:
+                    step.append([j, val(j)])
+            plan.append(step)
+            for j, v in step:
+                fixed.discard(j) if v is None else fixed.add(j)
+            continue
+        else:
+            k = int(rng.integers(1, n + 1))
+            idx = [int(j) for j in rng.choice(n, size=k, replace=False)]
+        step = [[int(j), val(j)] for j in idx]
+        if rng.random() < 0.15:
+            step.append([int(rng.integers(n)), None])                     # a later binding of a name wins: dict()
+            step = [e for a, e in enumerate(step) if e[0] not in [f[0] for f in step[a + 1:]]]
+        plan.append(step)
+        for j, v in step:
+            fixed.discard(j) if v is None else fixed.add(j)
+    return pre, plan
+
+
+def run_reduced(ctx, chi, kinds, grids, obs, n_mech, psi, sig, seed, pre, plan):
+    tagp = 'C01.fixed_parameters'
+    inp = {'kinds': kinds, 'times': grids, 'obs': obs, 'psi': psi, 'sigma': sig, 'n_mech': n_mech,
+           'toy_seed': seed, 'reduced_before_construction': pre, 'fix_history': plan}
+    widths = widths_of(kinds)
+    n_err = sum(widths)
+    n = n_mech + n_err
+    first = [n_mech + sum(widths[:o]) for o in range(len(kinds))]
+    model = toy.ToyModel(len(kinds), n_mech, seed, offsets(kinds, seed))
+    base = np.concatenate([np.asarray(psi, float), np.asarray(sig, float)])
+    net = {}
+    ems = []
+    for o, k in enumerate(kinds):
+        em = c04.classes(chi)[k][0]()
+        if pre[o] is not None:
+            loc_names = em.get_parameter_names()
+            em = chi.ReducedErrorModel(em)
+            if pre[o]:
+                em.fix_parameters({loc_names[j]: v for j, v in pre[o]})
+            for j, v in pre[o]:
+                net[first[o] + j] = float(v)
+        ems.append(em)
+    # the names under which the parameters are addressed: those of a fresh, unreduced likelihood of the same models
+    twin = chi.LogLikelihood(toy.ToyModel(len(kinds), n_mech, seed, offsets(kinds, seed)),
+                             [c04.classes(chi)[k][0]() for k in kinds], [list(o) for o in obs],
+                             [list(g) for g in grids])
+    names = list(twin.get_parameter_names())
+    ll = chi.LogLikelihood(toy.ToyModel(len(kinds), n_mech, seed, offsets(kinds, seed)), ems,
+                           [list(o) for o in obs], [list(g) for g in grids])
+    n_meas = [len(g) for g in grids]
+    data = [[[tbits(t) for t in grids[o]], list(obs[o])] for o in range(len(kinds))]
+    steps = [None] + list(plan) if any(p is not None for p in pre) else list(plan)
+    for s_no, step in enumerate(steps):
+        if step is not None:
+            ll.fix_parameters({names[j]: v for j, v in step})
+            for j, v in step:
+                if v is None:
+                    net.pop(j, None)
+                else:
+                    net[j] = float(v)
+        free = [j for j in range(n) if j not in net]
+        full = base.copy()
+        for j, v in net.items():
+            full[j] = v
+        x = full[free]
+        sinp = dict(inp, step=s_no, fixed_now={names[j]: v for j, v in sorted(net.items())}, x=x)
+        err_fixed = [j for j in net if j >= n_mech]
+        cls = ('all-error-fixed' if len(err_fixed) == n_err else 'some-error-fixed' if err_fixed else
+               'mechanistic-fixed' if net else 'all-released')
+        if len(net) == n:
+            cls = 'everything-fixed'
+        ctx.case('fixed-parameters/' + cls,
+                 nontrivial='fixed/%s/%s/%s' % (''.join(kinds), n_mech, sorted(net)) if net else False, sample=sinp)
+        ctx.spec(tagp + '.n_parameters', ll.n_parameters() == len(free), sinp, {'chi': ll.n_parameters()})
+        ctx.spec(tagp + '.n_observations', list(ll.n_observations()) == n_meas, sinp)
+        # the model: every sub-model takes its own free entries off the argument and fills in its fixed ones
+        cells_m = [[j in net, float(net.get(j, 0.0))] for j in range(n_mech)]
+        cells_e = [[[j in net, float(net.get(j, 0.0))] for j in range(first[o], first[o] + widths[o])]
+                   for o in range(len(kinds))]
+        mf = ctx.model('C01.reduced_fill', cells_m, cells_e, list(map(float, x)))
+        ctx.agree('C01.reduced_fill', list(full), list(mf[0]) + list(mf[1]) if len(mf) == 2 else mf[0], sinp)
+        mo = None
+        if len(mf) == 2:
+            table = [[[tbits(t), model.value(np.asarray(mf[0], float), o, t)] for t in sorted(set(grids[o]))]
+                     for o in range(len(kinds))]
+            mo = ctx.model('C01.call', False, len(kinds), kinds, data, table, list(mf[1]))
+        if (seed + s_no) % 2 == 0:
+            try:        # an evaluation with sensitivities first (C03 / C08 judge evaluateS1 itself)
+                with np.errstate(all='ignore'):
+                    ll.evaluateS1(x)
+            except Exception:  # noqa
+                pass
+        try:
+            with np.errstate(all='ignore'):
+                v = float(ll(x))
+            out = v
+        except Exception as e:  # noqa
+            out = core.errkind(e)
+        ctx.spec(tagp + '.evaluable', not isinstance(out, str), sinp, {'raised': out})
+        if mo is not None and mo[0] == 'ok':
+            ctx.agree('C01.reduced_call', out, mo[1], sinp)
+        if isinstance(out, str):
+            continue
+        sv, spw = spec_value(kinds, grids, obs, model, full[:n_mech], list(full[n_mech:]))
+        if math.isnan(sv):
+            continue
+        ctx.spec(tagp + '.value_is_sum_over_measurements', core.close(v, sv), sinp, {'chi': v, 'spec': sv})
+        try:
+            with np.errstate(all='ignore'):
+                pw = np.asarray(ll.compute_pointwise_ll(x), float)
+        except Exception as e:  # noqa
+            ctx.spec(tagp + '.pointwise_evaluable', False, sinp, {'raised': repr(e)[:200]})
+            continue
+        if mo is not None and mo[0] == 'ok' and all(a is not None for a in mo[3]):
+            ctx.agree('C01.reduced_pointwise', pw, mo[3], sinp)
+        ctx.spec(tagp + '.pointwise_order', core.close(pw, spw), sinp, {'chi': pw, 'spec': spw})
+        ctx.spec(tagp + '.pointwise_length', len(pw) == sum(n_meas), sinp)
+        if math.isfinite(v):
+            ctx.spec(tagp + '.pointwise_sum', core.close(float(np.sum(pw)), v), sinp)
+        if len(free) > 0:
+            prior = pints.ComposedLogPrior(*[pints.GaussianLogPrior(1.0, 2.0) for _ in free])
+            try:
+                with np.errstate(all='ignore'):
+                    pv = float(chi.LogPosterior(ll, prior)(x))
+                ctx.spec(tagp + '.posterior', core.close(pv, float(prior(x)) + sv), sinp,
+                         {'post': pv, 'prior': float(prior(x)), 'spec': sv})
+            except Exception as e:  # noqa
+                ctx.spec(tagp + '.posterior', False, sinp, {'raised': repr(e)[:200]})
+
+
 def malformed(ctx, chi):
     cases = [
         (['G'], [np.array([1.0, 0.5])], [np.array([1.0, 2.0])], 'decreasing'),
@@ -295,6 +478,11 @@ def run(ctx):
         rng = ctx.sub_rng(i)
         kinds, grids, obs, n_mech, psi, sig = gen_case(rng)
         ctx.guard(run_case, ctx, chi, kinds, grids, obs, n_mech, psi, sig, i)
+        if rng.random() < 0.35:
+            kinds, grids, obs, n_mech, psi, sig = gen_case(rng)
+            sig = [abs(s_) + 0.2 if s_ <= 0 else s_ for s_ in sig]
+            pre, plan = gen_plan(rng, n_mech, kinds)
+            ctx.guard(run_reduced, ctx, chi, kinds, grids, obs, n_mech, psi, sig, i, pre, plan)
 
 
 def replay(ctx, data):
@@ -302,6 +490,13 @@ def replay(ctx, data):
     inp = data['failing']['input']
     grids = [np.array(g, float) for g in inp['times']]
     obs = [np.array(o, float) for o in inp['obs']]
+    if 'fix_history' in inp:
+        run_reduced(ctx, chi, inp['kinds'], grids, obs, inp['n_mech'], np.array(inp['psi'], float),
+                    [float(s) for s in inp['sigma']], inp['toy_seed'], inp['reduced_before_construction'],
+                    inp['fix_history'])
+        print('spec failures on replay:', ctx.spec_bad[:2])
+        print('disagreements on replay:', ctx.corr_bad[:2])
+        return 1 if ctx.spec_bad else 0
     run_case(ctx, chi, inp['kinds'], grids, obs, inp['n_mech'], np.array(inp['psi'], float),
              [float(s) for s in inp['sigma']], inp['toy_seed'])
     print('spec failures on replay:', ctx.spec_bad[:2])
